@@ -4,6 +4,18 @@ import json
 ALL = ["C%02d" % i for i in range(1, 21)]
 # id -> (category, level text, level note, technique, design ref)
 CHECKS = {
+ "C06": ("exploration",
+   "differential test against the single-threaded run under schedules the harness owns: the cfg-guarded turnstile orders the start and end of every file patch application and the save-phase file operations according to a script; per workspace a free run, the two targeted extremes (worker owning the failing file patch last / first) and several random linear extensions are forced; schedules are sampled and targeted, not enumerated",
+   "assumes workers interact only at the hooked points (they share one atomic); forced runs whose trace shows a stall release are counted but not trusted as forced",
+   "property-based testing with harness-owned schedules (seeded random linear extensions + targeted extremes); differential oracle vs --threads 1"),
+ "C07": ("exploration",
+   "bounded-exhaustive sweep of all sequences of (name, related name) pairs up to length 5/6 over 4 names x thread counts 2-4 plus random longer sequences, fed to the real FilenameDistributor through a cfg-guarded sub-command and compared with a union-find oracle; plus traced parallel pushes of generated series with chained differing names",
+   "the sub-command uses String keys instead of paths; beyond the bound only sampled",
+   "property-based testing: exhaustive small-scope sweep + random sequences; oracle = union-find reference model; trace invariant at CLI level"),
+ "C18": ("fault_enumeration",
+   "for every generated workspace the n output operations of the push are listed through a cfg-guarded hook and every single one (k = 1..n) is failed in turn on a fresh copy; additionally write(2) itself is made to fail through RLIMIT_FSIZE; each faulty run must exit 1 with a message naming the file and must not record patches whose files are not all written",
+   "faults at operation boundaries and EFBIG inside write(2); no partial-write-then-success, fsync or crash faults",
+   "fault injection enumerated per generated workspace (every k-th output operation) + kernel-level write faults; oracle = exit status / message / applied-patches invariant"),
  "C16": ("exploration",
    "generated workspaces with -pN/-R spellings and differing ---/+++ names whose resolution depends on files created, deleted or renamed earlier in the same run; each is pushed sequentially, in parallel and split over two invocations; all must equal the model tree and the backup entries must name the resolved path",
    "trusts the model's statement of the resolution rule (old name if it currently exists, else new name)",
